@@ -37,6 +37,7 @@ TRUSTED = [
     "Lean 4 kernel",
     "harness/extract.py: handler order and the memo the message formats",
     "the message format parsed by harness/impl_prog.parse_tce (stage sentence, parameter name, name=value lines)",
+    "harness/translate_wrap.py (recognisers of the statements of the jaxtyped wrappers, _JaxtypingContext and _get_problem_arg) and the interpreters Model/WrapDsl.lean / Model/BlameDsl.lean (the typechecker passes, the one-parameter checker and message-text statements are primitives)",
 ]
 
 
